@@ -1,9 +1,44 @@
 package cencgen
 
 import (
+	"bytes"
+	"fmt"
+
 	"verifharness/ref/bitw"
+	"verifharness/ref/h265"
 	"verifharness/runner"
 )
+
+// hevcRPS is one explicitly coded st_ref_pic_set( ) (7.3.7). Inter RPS
+// prediction is never used by this generator.
+type hevcRPS struct {
+	D0, D1 []int  // delta_poc_s0_minus1 / delta_poc_s1_minus1
+	U0, U1 []bool // used_by_curr_pic_s0_flag / used_by_curr_pic_s1_flag
+}
+
+func countTrue(b []bool) int {
+	n := 0
+	for _, v := range b {
+		if v {
+			n++
+		}
+	}
+	return n
+}
+
+// used returns the number of pictures before / after the current one that are used by it.
+func (p hevcRPS) used() (int, int) { return countTrue(p.U0), countTrue(p.U1) }
+
+func (p hevcRPS) ref() *h265.STRPS {
+	s := &h265.STRPS{UsedS0: append([]bool(nil), p.U0...), UsedS1: append([]bool(nil), p.U1...)}
+	for _, d := range p.D0 {
+		s.DeltaPocS0Minus1 = append(s.DeltaPocS0Minus1, uint64(d))
+	}
+	for _, d := range p.D1 {
+		s.DeltaPocS1Minus1 = append(s.DeltaPocS1Minus1, uint64(d))
+	}
+	return s
+}
 
 type hevcSPS struct {
 	ID               int
@@ -14,9 +49,16 @@ type hevcSPS struct {
 	Log2MinCb        int // log2_min_luma_coding_block_size (3..)
 	Log2DiffMaxMinCb int
 	SAO              bool
-	NumStRps         int // short-term RPS in the SPS (0..2), each with one negative picture
+	NumStRps         int // short-term RPS in the SPS
 	TemporalMvp      bool
-	NAL              []byte
+	// reference-picture shapes (Shape.RefPics); zero values = the plain shape
+	ExtraDpb int       // sps_max_dec_pic_buffering_minus1 = 2 + ExtraDpb
+	Rps      []hevcRPS // the NumStRps sets (plain shape: one negative picture each, used)
+	LongTerm bool      // long_term_ref_pics_present_flag
+	LtPocLsb []uint64  // lt_ref_pic_poc_lsb_sps
+	LtUsed   []bool    // used_by_curr_pic_lt_sps_flag
+	NAL      []byte
+	Ref      *h265.SPS // the same values as a record of the independent reference serializer
 }
 
 type hevcPPS struct {
@@ -28,6 +70,7 @@ type hevcPPS struct {
 	NumRefL0, NumRefL1 int
 	ChromaQpOffsets    bool
 	WeightedPred       bool
+	WeightedBipred     bool
 	EntropySync        bool
 	LoopFilterAcross   bool
 	DeblockCtrl        bool
@@ -36,6 +79,7 @@ type hevcPPS struct {
 	ListsModification  bool
 	SliceHdrExt        bool
 	NAL                []byte
+	Ref                *h265.PPS
 }
 
 type hevcParams struct {
@@ -44,6 +88,17 @@ type hevcParams struct {
 	Decoy  *hevcSPS
 	PPS    []*hevcPPS
 	Traits []string
+	// X is the extra PRNG stream of the reference-picture shapes (nil = off): B slices,
+	// short-term sets with several pictures before/after, long-term pictures, list modification.
+	X *runner.Rand
+	// SelfCheck names the first disagreement between this serializer and ref/h265 ("" = none).
+	SelfCheck string
+}
+
+func (hp *hevcParams) fail(format string, a ...interface{}) {
+	if hp.SelfCheck == "" {
+		hp.SelfCheck = fmt.Sprintf(format, a...)
+	}
 }
 
 func putPTL(w *bitw.W) {
@@ -84,14 +139,21 @@ func genHEVCVPS() []byte {
 	return append(hevcNALHdr(32), bitw.Escape(w.Bytes())...)
 }
 
-func putStRps1(w *bitw.W, idx int, deltaMinus1 int, used bool) {
+// putStRps writes st_ref_pic_set( idx ) in its explicit form.
+func putStRps(w *bitw.W, idx int, p hevcRPS) {
 	if idx != 0 {
 		w.Flag(false) // inter_ref_pic_set_prediction_flag
 	}
-	w.UE(1) // num_negative_pics
-	w.UE(0) // num_positive_pics
-	w.UE(uint64(deltaMinus1))
-	w.Flag(used)
+	w.UE(uint64(len(p.D0))) // num_negative_pics
+	w.UE(uint64(len(p.D1))) // num_positive_pics
+	for i, d := range p.D0 {
+		w.UE(uint64(d))
+		w.Flag(p.U0[i])
+	}
+	for i, d := range p.D1 {
+		w.UE(uint64(d))
+		w.Flag(p.U1[i])
+	}
 }
 
 func (s *hevcSPS) serialize() {
@@ -112,7 +174,7 @@ func (s *hevcSPS) serialize() {
 	w.UE(0)
 	w.UE(uint64(s.Log2MaxPocLsb - 4))
 	w.Flag(true) // sps_sub_layer_ordering_info_present_flag
-	w.UE(2)
+	w.UE(uint64(2 + s.ExtraDpb))
 	w.UE(0)
 	w.UE(0)
 	w.UE(uint64(s.Log2MinCb - 3))
@@ -127,15 +189,37 @@ func (s *hevcSPS) serialize() {
 	w.Flag(false) // pcm_enabled_flag
 	w.UE(uint64(s.NumStRps))
 	for i := 0; i < s.NumStRps; i++ {
-		putStRps1(w, i, i, true)
+		putStRps(w, i, s.Rps[i])
 	}
-	w.Flag(false) // long_term_ref_pics_present_flag
+	w.Flag(s.LongTerm) // long_term_ref_pics_present_flag
+	if s.LongTerm {
+		w.UE(uint64(len(s.LtPocLsb))) // num_long_term_ref_pics_sps
+		for i, v := range s.LtPocLsb {
+			w.Put(v, s.Log2MaxPocLsb)
+			w.Flag(s.LtUsed[i])
+		}
+	}
 	w.Flag(s.TemporalMvp)
 	w.Flag(true)  // strong_intra_smoothing_enabled_flag
 	w.Flag(false) // vui_parameters_present_flag
 	w.Flag(false) // sps_extension_present_flag
 	w.TrailingBits()
 	s.NAL = append(hevcNALHdr(33), bitw.Escape(w.Bytes())...)
+
+	ref := &h265.SPS{TemporalIdNesting: true,
+		PTL: h265.PTL{ProfileIdc: 1, Compat: 0x60000000, Constraint: 0x9 << 44, LevelIdc: 93},
+		ID:  uint64(s.ID), ChromaFormatIdc: uint64(s.ChromaFormat), SeparateColourPlane: s.SeparatePlanes,
+		Width: uint64(s.Width), Height: uint64(s.Height), Log2MaxPocLsbMinus4: uint64(s.Log2MaxPocLsb - 4),
+		SubLayerOrderingInfoPresent:      true,
+		Ordering:                         []h265.SubLayerOrdering{{MaxDecPicBufferingMinus1: uint64(2 + s.ExtraDpb)}},
+		Log2MinLumaCodingBlockSizeMinus3: uint64(s.Log2MinCb - 3), Log2DiffMaxMinLumaCodingBlockSize: uint64(s.Log2DiffMaxMinCb),
+		Log2DiffMaxMinLumaTransformBlockSize: 1, MaxTransformHierarchyDepthInter: 1, MaxTransformHierarchyDepthIntra: 1,
+		Sao: s.SAO, LongTermRefPicsPresent: s.LongTerm, LtRefPicPocLsbSps: s.LtPocLsb, UsedByCurrPicLtSps: s.LtUsed,
+		TemporalMvp: s.TemporalMvp, StrongIntraSmoothing: true}
+	for i := 0; i < s.NumStRps; i++ {
+		ref.STRPS = append(ref.STRPS, s.Rps[i].ref())
+	}
+	s.Ref = ref
 }
 
 func (p *hevcPPS) serialize() {
@@ -157,7 +241,7 @@ func (p *hevcPPS) serialize() {
 	w.SE(0)
 	w.Flag(p.ChromaQpOffsets)
 	w.Flag(p.WeightedPred)
-	w.Flag(false) // weighted_bipred_flag
+	w.Flag(p.WeightedBipred)
 	w.Flag(false) // transquant_bypass_enabled_flag
 	w.Flag(false) // tiles_enabled_flag
 	w.Flag(p.EntropySync)
@@ -178,9 +262,62 @@ func (p *hevcPPS) serialize() {
 	w.Flag(false) // pps_extension_present_flag
 	w.TrailingBits()
 	p.NAL = append(hevcNALHdr(34), bitw.Escape(w.Bytes())...)
+
+	p.Ref = &h265.PPS{ID: uint64(p.ID), SPSID: uint64(p.SPSID), DependentSliceSegmentsEnabled: p.DependentSlices,
+		OutputFlagPresent: p.OutputFlagPresent, NumExtraSliceHeaderBits: uint64(p.NumExtraBits), CabacInitPresent: p.CabacInitPresent,
+		NumRefIdxL0DefaultActiveMinus1: uint64(p.NumRefL0), NumRefIdxL1DefaultActiveMinus1: uint64(p.NumRefL1),
+		SliceChromaQpOffsetsPresent: p.ChromaQpOffsets, WeightedPred: p.WeightedPred, WeightedBipred: p.WeightedBipred,
+		EntropyCodingSyncEnabled: p.EntropySync, LoopFilterAcrossSlicesEnabled: p.LoopFilterAcross,
+		DeblockingFilterControlPresent: p.DeblockCtrl, DeblockingFilterOverrideEnabled: p.DeblockOverride,
+		DeblockingFilterDisabled: p.PpsDeblockDisabled, BetaOffsetDiv2: 1, TcOffsetDiv2: -1,
+		ListsModificationPresent: p.ListsModification, SliceSegmentHeaderExtensionPresent: p.SliceHdrExt}
 }
 
-func genHEVCSPS(r *runner.Rand, id int) *hevcSPS {
+// refEncode runs one encoder of ref/h265; a record the reference cannot encode is a failed self-check, not a crash.
+func refEncode(f func() []byte) (out []byte, ok bool) {
+	defer func() {
+		if recover() != nil {
+			out, ok = nil, false
+		}
+	}()
+	return f(), true
+}
+
+// rpsUsedPairs: numbers of used pictures before / after the current picture of
+// the sets drawn for the reference-picture shapes (equal, one-sided, lopsided).
+var rpsUsedPairs = [][2]int{{1, 0}, {0, 1}, {2, 1}, {1, 3}, {1, 1}, {2, 0}, {0, 2}, {2, 2}, {3, 1}, {0, 0}, {1, 2}, {3, 0}, {0, 3}, {4, 1}}
+
+// genRefPicRPS draws an explicitly coded short-term set: a pair of used counts
+// plus sometimes an unused picture on either side.
+func genRefPicRPS(x *runner.Rand) hevcRPS {
+	u := rpsUsedPairs[x.Intn(len(rpsUsedPairs))]
+	side := func(nUsed int) ([]int, []bool) {
+		flags := make([]bool, nUsed)
+		for i := range flags {
+			flags[i] = true
+		}
+		if x.Chance(1, 3) {
+			// one picture that is kept but not used by the current picture, at a random position
+			pos := x.Intn(nUsed + 1)
+			flags = append(flags, false)
+			copy(flags[pos+1:], flags[pos:])
+			flags[pos] = false
+		}
+		d := make([]int, len(flags))
+		for i := range d {
+			d[i] = x.PickInt(0, 0, 1, 2, 7, 30)
+		}
+		return d, flags
+	}
+	var p hevcRPS
+	p.D0, p.U0 = side(u[0])
+	p.D1, p.U1 = side(u[1])
+	return p
+}
+
+func genHEVCSPS(r *runner.Rand, id int) *hevcSPS { return genHEVCSPSX(r, id, nil) }
+
+func genHEVCSPSX(r *runner.Rand, id int, x *runner.Rand) *hevcSPS {
 	s := &hevcSPS{ID: id, ChromaFormat: 1, Log2MaxPocLsb: r.PickInt(4, 5, 8, 10, 16), Log2MinCb: 3,
 		Log2DiffMaxMinCb: r.PickInt(0, 1, 2, 3), SAO: r.Bool(), NumStRps: r.PickInt(0, 1, 2), TemporalMvp: r.Bool()}
 	s.Width = 8 * r.Range(2, 240)
@@ -191,14 +328,37 @@ func genHEVCSPS(r *runner.Rand, id int) *hevcSPS {
 	} else if r.Chance(1, 10) {
 		s.ChromaFormat = 0
 	}
+	if x != nil {
+		s.ExtraDpb = 12
+		s.NumStRps = x.PickInt(0, 1, 2, 3, 4, 5)
+		for i := 0; i < s.NumStRps; i++ {
+			s.Rps = append(s.Rps, genRefPicRPS(x))
+		}
+		if x.Chance(1, 3) {
+			s.LongTerm = true
+			s.LtPocLsb, s.LtUsed = []uint64{}, []bool{}
+			for n := x.PickInt(0, 1, 2, 2, 3, 4, 5); n > 0; n-- {
+				s.LtPocLsb = append(s.LtPocLsb, x.Uint64()&(1<<uint(s.Log2MaxPocLsb)-1))
+				s.LtUsed = append(s.LtUsed, x.Chance(2, 3))
+			}
+		}
+	} else {
+		for i := 0; i < s.NumStRps; i++ {
+			s.Rps = append(s.Rps, hevcRPS{D0: []int{i}, U0: []bool{true}})
+		}
+	}
 	s.serialize()
 	return s
 }
 
-func genHEVCParams(r *runner.Rand) *hevcParams {
-	hp := &hevcParams{VPS: genHEVCVPS()}
+func genHEVCParams(r *runner.Rand) *hevcParams { return genHEVCParamsX(r, nil) }
+
+// genHEVCParamsX: x != nil switches the reference-picture shapes on; everything
+// they add is drawn from x so that the draws from r stay what they are without them.
+func genHEVCParamsX(r *runner.Rand, x *runner.Rand) *hevcParams {
+	hp := &hevcParams{VPS: genHEVCVPS(), X: x}
 	spsID := r.PickInt(0, 0, 1, 5, 15)
-	hp.SPS = genHEVCSPS(r, spsID)
+	hp.SPS = genHEVCSPSX(r, spsID, x)
 	npps := r.PickInt(1, 1, 2)
 	used := map[int]bool{}
 	differ := false
@@ -233,6 +393,15 @@ func genHEVCParams(r *runner.Rand) *hevcParams {
 			p.PpsDeblockDisabled = true
 			hp.Traits = append(hp.Traits, "pps-deblocking-disabled")
 		}
+		if x != nil {
+			if x.Bool() {
+				p.ListsModification = true
+			}
+			if x.Chance(1, 3) {
+				p.NumRefL0, p.NumRefL1 = x.PickInt(0, 1, 2, 3), x.PickInt(0, 1, 2, 4)
+			}
+			p.WeightedBipred = x.Chance(1, 5)
+		}
 		p.serialize()
 		hp.PPS = append(hp.PPS, p)
 	}
@@ -240,13 +409,39 @@ func genHEVCParams(r *runner.Rand) *hevcParams {
 		hp.Traits = append(hp.Traits, "ppsid!=spsid")
 		for _, p := range hp.PPS {
 			if p.ID != spsID && p.ID < 16 && r.Chance(2, 3) {
-				hp.Decoy = genHEVCSPS(r, p.ID)
+				hp.Decoy = genHEVCSPSX(r, p.ID, x)
 				hp.Traits = append(hp.Traits, "decoy-sps")
 				break
 			}
 		}
 	} else {
 		hp.Traits = append(hp.Traits, "ppsid==spsid")
+	}
+	if x != nil {
+		hp.Traits = append(hp.Traits, "hevc-refpic-shapes")
+		if hp.SPS.LongTerm {
+			hp.Traits = append(hp.Traits, "hevc-long-term-refs")
+		}
+		for _, p := range hp.PPS {
+			if p.ListsModification {
+				hp.Traits = append(hp.Traits, "hevc-lists-modification")
+				break
+			}
+		}
+	}
+	// self-check: the reference serializer gives the same parameter-set NAL units
+	for _, s := range []*hevcSPS{hp.SPS, hp.Decoy} {
+		if s == nil {
+			continue
+		}
+		if b, ok := refEncode(func() []byte { return s.Ref.Encode(1).NAL }); !ok || !bytes.Equal(b, s.NAL) {
+			hp.fail("SPS %d: ref/h265 encodes %x, generator %x", s.ID, b, s.NAL)
+		}
+	}
+	for _, p := range hp.PPS {
+		if b, ok := refEncode(func() []byte { return p.Ref.Encode(1).NAL }); !ok || !bytes.Equal(b, p.NAL) {
+			hp.fail("PPS %d: ref/h265 encodes %x, generator %x", p.ID, b, p.NAL)
+		}
 	}
 	return hp
 }
@@ -266,6 +461,7 @@ type hevcSliceOpts struct {
 }
 
 func genHEVCSlice(r *runner.Rand, hp *hevcParams, o hevcSliceOpts) NAL {
+	x := hp.X
 	sps := hp.SPS
 	pps := hp.PPS[r.Intn(len(hp.PPS))]
 	nalType := r.PickInt(0, 1, 1)
@@ -273,10 +469,14 @@ func genHEVCSlice(r *runner.Rand, hp *hevcParams, o hevcSliceOpts) NAL {
 		nalType = r.PickInt(19, 20, 21, 16)
 	}
 	isIDR := nalType == 19 || nalType == 20
+	// rec: the values written, as a record of the reference serializer (self-check below)
+	rec := &h265.Slice{NalUnitType: uint(nalType), TemporalIDPlus1: 1, FirstSliceSegmentInPic: o.First, PPSID: uint64(pps.ID)}
+	var tags []string
 	w := &bitw.W{}
 	w.Flag(o.First)
 	if nalType >= 16 && nalType <= 23 {
-		w.Flag(r.Bool())
+		rec.NoOutputOfPriorPics = r.Bool()
+		w.Flag(rec.NoOutputOfPriorPics)
 	}
 	w.UE(uint64(pps.ID))
 	dependent := false
@@ -284,6 +484,7 @@ func genHEVCSlice(r *runner.Rand, hp *hevcParams, o hevcSliceOpts) NAL {
 		if pps.DependentSlices {
 			dependent = r.Chance(1, 3)
 			w.Flag(dependent)
+			rec.DependentSliceSegment = dependent
 		}
 		ctb := 1 << uint(sps.Log2MinCb+sps.Log2DiffMaxMinCb)
 		n := ((sps.Width + ctb - 1) / ctb) * ((sps.Height + ctb - 1) / ctb)
@@ -293,23 +494,41 @@ func genHEVCSlice(r *runner.Rand, hp *hevcParams, o hevcSliceOpts) NAL {
 			addr = 1 + r.Intn(n-1)
 		}
 		w.Put(uint64(addr), bits)
+		rec.SegmentAddress = uint64(addr)
+	}
+	numPicTotalCurr := 0
+	if dependent {
+		tags = append(tags, "type=dependent-segment")
 	}
 	if !dependent {
 		for i := 0; i < pps.NumExtraBits; i++ {
-			w.Flag(r.Bool())
+			v := r.Bool()
+			w.Flag(v)
+			rec.ReservedFlags = append(rec.ReservedFlags, v)
 		}
 		st := 2 // I
 		if !o.IDR {
 			st = r.PickInt(1, 1, 2) // P or I
+			if x != nil {
+				switch x.Intn(4) {
+				case 0, 1:
+					st = 0 // B
+				case 2:
+					st = 1
+				}
+			}
 		}
 		w.UE(uint64(st))
+		rec.SliceType = uint64(st)
+		tags = append(tags, "type="+[]string{"B", "P", "I"}[st])
 		if pps.OutputFlagPresent {
-			w.Flag(r.Bool())
+			rec.PicOutput = r.Bool()
+			w.Flag(rec.PicOutput)
 		}
 		if sps.SeparatePlanes {
-			w.Put(uint64(r.Intn(3)), 2)
+			rec.ColourPlaneId = uint64(r.Intn(3))
+			w.Put(rec.ColourPlaneId, 2)
 		}
-		numPicTotalCurr := 0
 		temporalMvp := false
 		if !isIDR {
 			lsb := r.Uint64() & (1<<uint(sps.Log2MaxPocLsb) - 1)
@@ -317,23 +536,86 @@ func genHEVCSlice(r *runner.Rand, hp *hevcParams, o hevcSliceOpts) NAL {
 				lsb = 0
 			}
 			w.Put(lsb, sps.Log2MaxPocLsb)
+			rec.PocLsb = lsb
 			fromSPS := sps.NumStRps > 0 && r.Bool()
 			w.Flag(fromSPS)
+			rec.ShortTermRefPicSetSps = fromSPS
+			var cur hevcRPS
 			if !fromSPS {
-				used := r.Bool()
-				putStRps1(w, sps.NumStRps, r.Intn(3), used)
-				if used {
-					numPicTotalCurr = 1
+				if x != nil {
+					cur = genRefPicRPS(x)
+				} else {
+					used := r.Bool()
+					cur = hevcRPS{D0: []int{r.Intn(3)}, U0: []bool{used}}
 				}
+				putStRps(w, sps.NumStRps, cur)
+				rec.STRPS = cur.ref()
+				tags = append(tags, "st-rps=in-slice-header")
 			} else {
+				k := 0
 				if sps.NumStRps > 1 {
-					w.Put(uint64(r.Intn(sps.NumStRps)), ceilLog2(sps.NumStRps))
+					k = r.Intn(sps.NumStRps)
+					w.Put(uint64(k), ceilLog2(sps.NumStRps))
+					tags = append(tags, "st-rps=sps-by-idx")
+				} else {
+					tags = append(tags, "st-rps=sps-idx-inferred")
 				}
-				numPicTotalCurr = 1
+				rec.ShortTermRefPicSetIdx = uint64(k)
+				cur = sps.Rps[k]
 			}
+			u0, u1 := cur.used()
+			usedLt := 0
+			if sps.LongTerm {
+				// only with the reference-picture shapes (x != nil)
+				nSps := 0
+				if len(sps.LtPocLsb) > 0 {
+					nSps = x.PickInt(0, 1, x.Intn(len(sps.LtPocLsb)+1))
+					w.UE(uint64(nSps)) // num_long_term_sps
+				}
+				nPics := x.PickInt(0, 0, 1, 2)
+				w.UE(uint64(nPics)) // num_long_term_pics
+				for i := 0; i < nSps+nPics; i++ {
+					var e h265.LTEntry
+					if i < nSps {
+						k := 0
+						if len(sps.LtPocLsb) > 1 {
+							k = x.Intn(len(sps.LtPocLsb))
+							w.Put(uint64(k), ceilLog2(len(sps.LtPocLsb))) // lt_idx_sps
+						}
+						e.LtIdxSps = uint64(k)
+						if sps.LtUsed[k] {
+							usedLt++
+						}
+					} else {
+						e.PocLsbLt = x.Uint64() & (1<<uint(sps.Log2MaxPocLsb) - 1)
+						e.UsedByCurrPicLt = x.Bool()
+						w.Put(e.PocLsbLt, sps.Log2MaxPocLsb)
+						w.Flag(e.UsedByCurrPicLt)
+						if e.UsedByCurrPicLt {
+							usedLt++
+						}
+					}
+					e.DeltaPocMsbPresent = x.Chance(1, 3)
+					w.Flag(e.DeltaPocMsbPresent)
+					if e.DeltaPocMsbPresent {
+						e.DeltaPocMsbCycleLt = uint64(x.PickInt(0, 1, 5, 300))
+						w.UE(e.DeltaPocMsbCycleLt)
+					}
+					rec.LT = append(rec.LT, e)
+				}
+				rec.NumLongTermSps = uint64(nSps)
+				tags = append(tags, fmt.Sprintf("long-term=sps:%d,slice:%d", nSps, nPics))
+			}
+			numPicTotalCurr = u0 + u1 + usedLt
+			ltTag := fmt.Sprint(usedLt)
+			if usedLt >= 3 {
+				ltTag = "3+"
+			}
+			tags = append(tags, fmt.Sprintf("used-by-curr=s0:%d,s1:%d,lt:%s", u0, u1, ltTag))
 			if sps.TemporalMvp {
 				temporalMvp = r.Bool()
 				w.Flag(temporalMvp)
+				rec.TemporalMvpEnabled = temporalMvp
 			}
 		}
 		saoL, saoC := false, false
@@ -344,76 +626,161 @@ func genHEVCSlice(r *runner.Rand, hp *hevcParams, o hevcSliceOpts) NAL {
 				saoC = r.Bool()
 				w.Flag(saoC)
 			}
+			rec.SaoLuma, rec.SaoChroma = saoL, saoC
 		}
-		if st == 1 {
-			nl0 := pps.NumRefL0
+		if st == 1 || st == 0 {
+			isB := st == 0 // only with the reference-picture shapes (x != nil)
+			nl0, nl1 := pps.NumRefL0, pps.NumRefL1
 			ov := r.Bool()
 			w.Flag(ov)
 			if ov {
 				nl0 = r.Intn(3)
+				if x != nil && x.Chance(1, 5) {
+					nl0 = x.PickInt(3, 4, 7)
+				}
 				w.UE(uint64(nl0))
-			}
-			_ = numPicTotalCurr // lists_modification needs NumPicTotalCurr > 1, which the generated RPS never reach
-			if pps.CabacInitPresent {
-				w.Flag(r.Bool())
-			}
-			if temporalMvp && nl0 > 0 {
-				w.UE(uint64(r.Intn(nl0 + 1)))
-			}
-			if pps.WeightedPred {
-				chroma := sps.ChromaFormat != 0 && !(sps.SeparatePlanes && sps.ChromaFormat == 3)
-				w.UE(uint64(r.Intn(8)))
-				if chroma {
-					w.SE(int64(r.Range(-2, 2)))
+				if isB {
+					nl1 = x.PickInt(0, 1, 2, 2, 3, 5)
+					w.UE(uint64(nl1))
 				}
-				lf := make([]bool, nl0+1)
-				cf := make([]bool, nl0+1)
-				for i := range lf {
-					lf[i] = r.Bool()
-					w.Flag(lf[i])
-				}
-				if chroma {
-					for i := range cf {
-						cf[i] = r.Bool()
-						w.Flag(cf[i])
+				rec.NumRefIdxActiveOverride = true
+				rec.NumRefIdxL0ActiveMinus1, rec.NumRefIdxL1ActiveMinus1 = uint64(nl0), uint64(nl1)
+			}
+			if pps.ListsModification {
+				// ref_pic_lists_modification( ) is present when NumPicTotalCurr > 1 (the plain shapes never get there)
+				if numPicTotalCurr > 1 {
+					rr := x
+					if rr == nil {
+						rr = r
 					}
-				}
-				for i := range lf {
-					if lf[i] {
-						w.SE(int64(r.Range(-128, 127)))
-						w.SE(int64(r.Range(-128, 127)))
+					nb := ceilLog2(numPicTotalCurr)
+					entries := func(n int) []uint64 {
+						out := make([]uint64, n+1)
+						for i := range out {
+							out[i] = uint64(rr.Intn(numPicTotalCurr))
+							w.Put(out[i], nb) // list_entry_lX
+						}
+						return out
 					}
-					if cf[i] {
-						for j := 0; j < 2; j++ {
-							w.SE(int64(r.Range(-128, 127)))
-							w.SE(int64(r.Range(-512, 511)))
+					m0 := rr.Chance(2, 3)
+					w.Flag(m0) // ref_pic_list_modification_flag_l0
+					if m0 {
+						rec.RplmL0 = entries(nl0)
+					}
+					m1 := false
+					if isB {
+						m1 = rr.Bool()
+						w.Flag(m1) // ref_pic_list_modification_flag_l1
+						if m1 {
+							rec.RplmL1 = entries(nl1)
 						}
 					}
+					tags = append(tags, fmt.Sprintf("lists-modification=present/l0:%v,l1:%v/entry-bits:%d", m0, m1, nb))
+				} else {
+					tags = append(tags, fmt.Sprintf("lists-modification=absent/NumPicTotalCurr:%d", numPicTotalCurr))
 				}
 			}
-			w.UE(uint64(r.Intn(5))) // five_minus_max_num_merge_cand
+			if isB {
+				rec.MvdL1Zero = x.Bool()
+				w.Flag(rec.MvdL1Zero)
+			}
+			if pps.CabacInitPresent {
+				rec.CabacInit = r.Bool()
+				w.Flag(rec.CabacInit)
+			}
+			if temporalMvp {
+				fromL0 := true
+				if isB {
+					fromL0 = x.Bool()
+					w.Flag(fromL0) // collocated_from_l0_flag
+				}
+				rec.CollocatedFromL0 = fromL0
+				n := nl0
+				if !fromL0 {
+					n = nl1
+				}
+				if n > 0 {
+					rec.CollocatedRefIdx = uint64(r.Intn(n + 1))
+					w.UE(rec.CollocatedRefIdx)
+				}
+			}
+			if (pps.WeightedPred && !isB) || (pps.WeightedBipred && isB) {
+				chroma := sps.ChromaFormat != 0 && !(sps.SeparatePlanes && sps.ChromaFormat == 3)
+				pw := &h265.PWT{}
+				pw.LumaLog2WeightDenom = uint64(r.Intn(8))
+				w.UE(pw.LumaLog2WeightDenom)
+				if chroma {
+					pw.DeltaChromaLog2WeightDenom = int64(r.Range(-2, 2))
+					w.SE(pw.DeltaChromaLog2WeightDenom)
+				}
+				table := func(rr *runner.Rand, n int) []h265.PredWeight {
+					t := make([]h265.PredWeight, n+1)
+					for i := range t {
+						t[i].LumaFlag = rr.Bool()
+						w.Flag(t[i].LumaFlag)
+					}
+					if chroma {
+						for i := range t {
+							t[i].ChromaFlag = rr.Bool()
+							w.Flag(t[i].ChromaFlag)
+						}
+					}
+					for i := range t {
+						if t[i].LumaFlag {
+							t[i].DeltaLumaWeight = int64(rr.Range(-128, 127))
+							w.SE(t[i].DeltaLumaWeight)
+							t[i].LumaOffset = int64(rr.Range(-128, 127))
+							w.SE(t[i].LumaOffset)
+						}
+						if t[i].ChromaFlag {
+							for j := 0; j < 2; j++ {
+								t[i].DeltaChromaWeight[j] = int64(rr.Range(-128, 127))
+								w.SE(t[i].DeltaChromaWeight[j])
+								t[i].DeltaChromaOffset[j] = int64(rr.Range(-512, 511))
+								w.SE(t[i].DeltaChromaOffset[j])
+							}
+						}
+					}
+					return t
+				}
+				pw.L0 = table(r, nl0)
+				if isB {
+					pw.L1 = table(x, nl1)
+				}
+				rec.PWT = pw
+			}
+			rec.FiveMinusMaxNumMergeCand = uint64(r.Intn(5))
+			w.UE(rec.FiveMinusMaxNumMergeCand) // five_minus_max_num_merge_cand
 		}
-		w.SE(int64(r.Range(-20, 20)))
+		rec.QpDelta = int64(r.Range(-20, 20))
+		w.SE(rec.QpDelta)
 		if pps.ChromaQpOffsets {
-			w.SE(int64(r.Range(-12, 12)))
-			w.SE(int64(r.Range(-12, 12)))
+			rec.CbQpOffset = int64(r.Range(-12, 12))
+			w.SE(rec.CbQpOffset)
+			rec.CrQpOffset = int64(r.Range(-12, 12))
+			w.SE(rec.CrQpOffset)
 		}
 		override := false
 		if pps.DeblockCtrl && pps.DeblockOverride {
 			override = r.Bool()
 			w.Flag(override)
+			rec.DeblockingOverride = override
 		}
 		disabled := pps.DeblockCtrl && pps.PpsDeblockDisabled
 		if override {
 			disabled = r.Bool()
 			w.Flag(disabled)
+			rec.DeblockingDisabled = disabled
 			if !disabled {
-				w.SE(int64(r.Range(-6, 6)))
-				w.SE(int64(r.Range(-6, 6)))
+				rec.BetaOffsetDiv2 = int64(r.Range(-6, 6))
+				w.SE(rec.BetaOffsetDiv2)
+				rec.TcOffsetDiv2 = int64(r.Range(-6, 6))
+				w.SE(rec.TcOffsetDiv2)
 			}
 		}
 		if pps.LoopFilterAcross && (saoL || saoC || !disabled) {
-			w.Flag(r.Bool())
+			rec.LoopFilterAcrossSlices = r.Bool()
+			w.Flag(rec.LoopFilterAcrossSlices)
 		}
 	}
 	if pps.EntropySync {
@@ -422,8 +789,11 @@ func genHEVCSlice(r *runner.Rand, hp *hevcParams, o hevcSliceOpts) NAL {
 		if n > 0 {
 			lenm1 := r.PickInt(0, 7, 15, 31)
 			w.UE(uint64(lenm1))
+			rec.OffsetLenMinus1 = uint64(lenm1)
 			for i := 0; i < n; i++ {
-				w.Put(r.Uint64()&(1<<uint(lenm1+1)-1), lenm1+1)
+				v := r.Uint64() & (1<<uint(lenm1+1) - 1)
+				w.Put(v, lenm1+1)
+				rec.EntryPointOffsetMinus1 = append(rec.EntryPointOffsetMinus1, v)
 			}
 		}
 	}
@@ -431,7 +801,9 @@ func genHEVCSlice(r *runner.Rand, hp *hevcParams, o hevcSliceOpts) NAL {
 		n := r.PickInt(0, 1, 3)
 		w.UE(uint64(n))
 		for i := 0; i < n; i++ {
-			w.Put(uint64(r.Intn(256)), 8)
+			v := r.Intn(256)
+			w.Put(uint64(v), 8)
+			rec.ExtensionData = append(rec.ExtensionData, byte(v))
 		}
 	}
 	// byte_alignment()
@@ -441,5 +813,26 @@ func genHEVCSlice(r *runner.Rand, hp *hevcParams, o hevcSliceOpts) NAL {
 	}
 	hdrBits := w.NBits()
 	h := hevcNALHdr(nalType)
-	return finishSlice(r, h[0], h[1:], w.Bytes(), hdrBits, o.Total, nalType, 2)
+	hdrRBSP := w.Bytes()
+	nal := finishSlice(r, h[0], h[1:], hdrRBSP, hdrBits, o.Total, nalType, 2)
+	nal.Tags = tags
+
+	// self-check: ref/h265 serializes the same values to the same header bits, the same header length
+	// and derives the same NumPicTotalCurr
+	if sps.Ref != nil && pps.Ref != nil {
+		var cd *h265.Coded
+		var info h265.SliceInfo
+		_, ok := refEncode(func() []byte { cd, info = rec.Encode(sps.Ref, pps.Ref); return nil })
+		switch {
+		case !ok || cd == nil:
+			hp.fail("slice (type %d): ref/h265 cannot encode the record", nalType)
+		case cd.HeaderBits != hdrBits || !bytes.Equal(cd.RBSP, hdrRBSP):
+			hp.fail("slice (type %d): ref/h265 writes a header of %d bits %x, generator %d bits %x", nalType, cd.HeaderBits, cd.RBSP, hdrBits, hdrRBSP)
+		case cd.HeaderSize != nal.HdrMin:
+			hp.fail("slice (type %d): ref/h265 header size %d bytes, generator %d", nalType, cd.HeaderSize, nal.HdrMin)
+		case !dependent && info.NumPicTotalCurr != numPicTotalCurr:
+			hp.fail("slice (type %d): ref/h265 derives NumPicTotalCurr %d, generator %d", nalType, info.NumPicTotalCurr, numPicTotalCurr)
+		}
+	}
+	return nal
 }
